@@ -136,11 +136,66 @@ def run_seq(ctx, seq):
     return verdict, ff_ok, probs
 
 
+CONTENT_VARIANTS = [None, "", " ", "\n    ", "\u00a0", "some text", "0"]
+
+
+def frame_work(ctx, acc):
+    """the verdict on the child sequence is a function of the rule and the sequence alone: the parent's own text and
+    attributes (valid or not) must not change which child/min/max errors are reported"""
+    ra = ctx.ra
+    p = ctx.parent
+    base_content = p.content
+    base_attrs = dict(p.attributes)
+    words = list(e2.words_upto(ra.alphabet, 2))[:600]
+    sa = ruleinfo.shortest_accepted(ra)
+    if sa:
+        words += [tuple(sa), tuple(sa[:-1]), tuple(sa) + (sa[-1],)]
+    n = 0
+
+    def child_codes():
+        errs = []
+        ruleinfo.validate_node(p, ctx.rule, ctx.direct, errs)
+        return [e[0].name for e in errs if isinstance(e, tuple) and getattr(e[0], "name", None) in CHILD_CODES]
+    for seq in words:
+        p.children = [ctx.child[a] for a in seq]
+        p.content = base_content
+        p.attributes = dict(base_attrs)
+        case0 = {"rule": ctx.rule, "seq": list(seq)}
+        try:
+            base = child_codes()
+        except Exception:  # noqa  (reported by the sweep)
+            continue
+        verdict = ra.verdict(tuple(seq))
+        for cv in CONTENT_VARIANTS:
+            for av in ("valid", "none", "foreign"):
+                if cv == base_content and av == "valid":
+                    continue
+                p.content = cv
+                p.attributes = {} if av == "none" else dict(base_attrs, **({"zzForeignAttr": "v"} if av == "foreign" else {}))
+                n += 1
+                case = dict(case0, parent_content=cv, parent_attributes=av)
+                try:
+                    got = child_codes()
+                except Exception as e:  # noqa
+                    acc.add_problem(problem("collecting_raised", case, expected="no exception", observed=repr(e),
+                                            rule=ctx.rule, mode="collecting", exc=type(e).__name__))
+                    continue
+                if got != base or (verdict == "accept" and got) or (verdict == "reject" and not got):
+                    acc.add_problem(problem("child_verdict_depends_on_parent_fields", case,
+                                            expected={"child_errors": base, "membership": verdict}, observed=got, rule=ctx.rule))
+    p.content = base_content
+    p.attributes = dict(base_attrs)
+    acc.count("frame_cases", n)
+
+
 def work(item):
     rule_name, kind, param = item
     ctx = Ctx(rule_name)
     ra = ctx.ra
     acc = core.Acc()
+    if kind == "frame":
+        frame_work(ctx, acc)
+        return acc
     n = 0
     v_counts = {"accept": 0, "reject": 0, "unspec": 0}
 
@@ -265,6 +320,7 @@ def plan(tier):
                 items.append((rn, "sweep", (L, pre)))
         if pump_words(ra):
             items.append((rn, "pump", None))
+        items.append((rn, "frame", None))
         ks = {}
         for which, dfa in (("strict", ra.strict),) + ((("lenient", ra.lenient),) if not ra.same else ()):
             P, W, mids = e2.w_suite(dfa, t["k"])
@@ -287,6 +343,10 @@ def plan(tier):
 
 def replay(case):
     ctx = Ctx(case["rule"])
+    if "parent_content" in case:
+        acc = core.Acc()
+        frame_work(ctx, acc)
+        return [p for ps in acc.problems.values() for p in ps if core.jsonable(p["case"]) == core.jsonable(case)]
     _, _, probs = run_seq(ctx, tuple(case["seq"]))
     return probs
 
@@ -329,6 +389,10 @@ def explore(tier):
                 "validated in fail-fast and collecting mode and compared with the DFA verdict (accept/reject/unspecified). "
                 "states/transitions = summed sizes of the per-rule minimal DFAs (all enumerated).",
         "rules_checked": len(info),
+        "frame_cases": acc.counts.get("frame_cases", 0),
+        "frame_rule": "every word of length <= 2 (+ the shortest accepted word, it minus its last child, it plus one more) is "
+                      "re-validated with the parent's content in {None, '', ' ', LF+spaces, NBSP, text, '0'} x attributes in {valid, "
+                      "none, +foreign}: the child/min/max errors collected must not change",
         "per_rule": info,
     }
     return acc, cov
